@@ -56,6 +56,10 @@ Inductive hcase :=
 | HCase (k : hkind) (env : henv) (fd : feeds) (st : list hunit)
         (expo : list f64) (unif : list (f64 * f64)) (calls : list pcall) (t : time)
         (state1 out : list ounit) (inserts : list (f64 * list Z * bool))
+(** root-unit-active handlers: [st2] = the fresh root cnodes the mediator hands to send_out_state; [out] lists them *)
+| HCase2 (k : hkind) (env : henv) (fd : feeds) (st st2 : list hunit)
+         (expo : list f64) (unif : list (f64 * f64)) (calls : list pcall) (t : time)
+         (state1 out : list ounit) (inserts : list (f64 * list Z * bool))
 (** send_event_time only (the candidate was trashed before send_out_state): [calls] are the calls of that phase *)
 | HCaseET (k : hkind) (env : henv) (fd : feeds) (st : list hunit)
           (expo : list f64) (calls : list pcall) (t : time) (state1 : list ounit).
@@ -66,6 +70,14 @@ Definition diag_hcase (c : hcase) : option (list bool) :=
   match c with
   | HCase k env fd st expo unif calls t state1 out inserts =>
       match run_handler k env fd st with
+      | None => None
+      | Some r =>
+          Some [fl_eqb (r_expo r) expo; leqb2 unif_eqb (r_unif r) unif; leqb pcall_eqb (r_calls r) calls;
+                time_eqb (r_time r) t; leqb ounit_eqb (map ounit_of (r_state1 r)) state1;
+                leqb ounit_eqb (map ounit_of (r_out r)) out; leqb insert_eqb (r_inserts r) inserts]
+      end
+  | HCase2 k env fd st st2 expo unif calls t state1 out inserts =>
+      match run_handler2 k env fd st st2 with
       | None => None
       | Some r =>
           Some [fl_eqb (r_expo r) expo; leqb2 unif_eqb (r_unif r) unif; leqb pcall_eqb (r_calls r) calls;
